@@ -441,16 +441,37 @@ fn canon_html(obs: &HtmlObs) -> String {
     format!("ok {}", items.join(" ")).trim_end().to_string()
 }
 
-/// independent `add_html_ext` expectation: where a reader expects the page of `rel`
+/// where a reader expects the page of `rel`: the index rows link to `./<name>.html`
 fn page_path(rel: &str) -> String {
-    let name = rel.rsplit('/').next().unwrap();
-    let has_ext = name.char_indices().any(|(i, c)| c == '.' && i > 0);
-    if has_ext { format!("{}.html", rel) } else { format!("{}..html", rel) }
+    format!("{}.html", rel)
 }
 
 // ---- run ------------------------------------------------------------------------------------
 pub fn run(rep: &mut Report) {
     let t0 = std::time::Instant::now();
+    rep.rule.push_str(
+        "; docs stream: result sets of 0-7 files over nested directories, root files, absolute rel paths (abs path differs), the same \
+         file name in several directories, extension-less and dot files, non-ASCII names, rarely a file named like a sibling directory \
+         or the same rel path twice, line 0 (1/25), counts up to 2^64-1, one closed witness with line 2^32-1; every set through the real \
+         coveralls, coveralls+, covdir, files, markdown writers and every third through html (generated sources, some unreadable), \
+         decoded document compared with the Lean document model; non-trivial = >= 3 files or a covdir name collision",
+    );
+    // corpus first: minimised past failures of this part (corpus/C03/*.json with a `c03.docs.*` op);
+    // each is replayed on the current tree: oracles + model tie
+    let mut corpus: Vec<PathBuf> = std::fs::read_dir("/verif/corpus/C03")
+        .map(|rd| rd.flatten().map(|e| e.path()).filter(|p| p.extension().map(|x| x == "json").unwrap_or(false)).collect())
+        .unwrap_or_default();
+    corpus.sort();
+    for p in corpus {
+        let Some(v) = std::fs::read_to_string(&p).ok().and_then(|t| serde_json::from_str::<Value>(&t).ok()) else { continue };
+        let case = &v["case"];
+        if !case["op"].as_str().map(|o| o.starts_with("c03.docs.")).unwrap_or(false) {
+            continue;
+        }
+        rep.case(&format!("corpus {}", case), true);
+        rep.count("docs.corpus.cases");
+        replay(rep, case);
+    }
     let mut rng = Rng::new(rep.seed ^ 0xC03D0C5);
     let n = rep.budget(260, 20);
     let out = rep.workdir.join("docs_out");
@@ -706,7 +727,10 @@ fn html_run(rep: &mut Report, set: &RS, nsrc: &[Option<usize>], sink: Option<(&m
                         rep.count("docs.html.page");
                         let want: Vec<Option<u64>> = (1..=n.unwrap() as u32).map(|l| c.lines.get(&l).cloned()).collect();
                         if obs.pages.get(&pp) != Some(&want) {
-                            rep.fail("oracle", None, format!("c03.docs.html: page of {:?} missing or its rows differ from (count | not instrumented) per source line", rel), case_json("c03.docs.html", &set, detail.clone()));
+                            // matcher of C03-html-index-named-source: the source file is named `index`, its page
+                            // `<dir>/index.html` is the file the directory (or global) index is written to afterwards
+                            let named = rels.rsplit('/').next() == Some("index") && obs.indexes.contains_key(rels.rsplit_once('/').map(|x| x.0).unwrap_or(""));
+                            rep.fail("oracle", if named { Some("C03-html-index-named-source") } else { None }, format!("c03.docs.html: page of {:?} missing or its rows differ from (count | not instrumented) per source line", rel), case_json("c03.docs.html", &set, detail.clone()));
                         }
                         let (parent, fname) = match rels.rsplit_once('/') { Some((p, f)) => (p.to_string(), f.to_string()), None => (String::new(), rels.to_string()) };
                         root_files |= parent.is_empty();
@@ -725,20 +749,24 @@ fn html_run(rep: &mut Report, set: &RS, nsrc: &[Option<usize>], sink: Option<(&m
                             let named = obs.indexes.get("").map(|(k, _)| k == "File").unwrap_or(false);
                             rep.fail("oracle", if named { Some("C03-html-root-index-overwritten") } else { None }, format!("c03.docs.html: directory {:?} is listed {} times in the global index", parent, in_global), case_json("c03.docs.html", &set, detail.clone()));
                         }
-                        // the link of the index row leads to the page
-                        if let Some((_, rows)) = obs.indexes.get(&parent) {
-                            if let Some(row) = rows.iter().find(|r| r.1 == fname) {
-                                let target = format!("{}{}", if parent.is_empty() { String::new() } else { format!("{}/", parent) }, row.0.trim_start_matches("./"));
-                                if !obs.pages.contains_key(&target) {
-                                    // matcher of C03-html-link-without-extension: the file name has no extension
-                                    let named = !fname.char_indices().any(|(i, c)| c == '.' && i > 0);
-                                    rep.fail("oracle", if named { Some("C03-html-link-without-extension") } else { None }, format!("c03.docs.html: the index row of {:?} links to {:?}, which is not a page", rel, target), case_json("c03.docs.html", &set, detail.clone()));
-                                }
-                            }
-                        }
                     }
                 }
                 let _ = root_files;
+                // every row of every directory index links to a page file that exists (former finding
+                // C03-html-link-without-extension, repaired in /repo b1b2416: reported again if it returns)
+                for (loc, (kind, rows)) in &obs.indexes {
+                    if kind != "File" {
+                        continue;
+                    }
+                    for (url, name) in rows {
+                        let target = format!("{}{}", if loc.is_empty() { String::new() } else { format!("{}/", loc) }, url.trim_start_matches("./"));
+                        rep.count("docs.html.index_link");
+                        if !obs.pages.contains_key(&target) {
+                            let named = name == "index" && url.trim_start_matches("./") == "index.html";
+                            rep.fail("oracle", if named { Some("C03-html-index-named-source") } else { None }, format!("c03.docs.html: the index row {:?} of directory {:?} links to {:?}, which is not a page file", name, loc, target), case_json("c03.docs.html", &set, detail.clone()));
+                        }
+                    }
+                }
                 for p in obs.pages.keys() {
                     if !expected_pages.contains(p) {
                         rep.fail("oracle", None, format!("c03.docs.html: page {:?} belongs to no relative readable result", p), case_json("c03.docs.html", &set, detail.clone()));
